@@ -702,7 +702,8 @@ namespace
             }
             catch (vf::injected_oom& e)
             {
-                threw = true;
+                threw         = true;
+                last_injected = true;
                 ++n_inj_fail;
                 note_failure();
                 if (has(O_FAIL) && e.ticket != Slab::get().alloc_calls())
@@ -928,11 +929,54 @@ namespace
             }
             alloc_req(r);
         }
+        bool last_injected = false;
+        unsigned n_retry_ok = 0;
         char* alloc_req(const Req& r)
         {
             auto     b = snap(r.size);
             bool     threw;
+            last_injected = false;
             void*    p = do_alloc(r, threw);
+            if (!p && last_injected && has(O_FAIL) && !failed)
+            {
+                // The request failed only because the upstream failed. "A failed request leaves the
+                // allocator able to serve later valid requests": the same request, repeated with a
+                // working upstream, asks the upstream for exactly what the failed attempt asked for.
+                auto&  log = Slab::get().log();
+                size_t failed_bytes = 0;
+                for (size_t i = log.size(); i-- > 0;)
+                    if (log[i].failed)
+                    {
+                        failed_bytes = log[i].count * log[i].size;
+                        break;
+                    }
+                Slab::get().fail_at(0);
+                size_t log0 = log.size();
+                bool   threw2;
+                last_injected = false;
+                p             = do_alloc(r, threw2);
+                if (failed)
+                    return nullptr;
+                for (size_t i = log0; i < Slab::get().log().size(); ++i)
+                {
+                    auto& e = Slab::get().log()[i];
+                    if (e.kind == vf::UpCall::alloc_node || e.kind == vf::UpCall::alloc_array)
+                    {
+                        if (failed_bytes && e.count * e.size != failed_bytes)
+                            fail("failure-changed-state", "after an upstream failure the repeated request asked the "
+                                                          "upstream for " + std::to_string(e.count * e.size)
+                                                              + " bytes, the failed attempt had asked for "
+                                                              + std::to_string(failed_bytes));
+                        break;
+                    }
+                }
+                if (failed)
+                    return nullptr;
+                // (the repeated request may still fail for its own reasons - e.g. it does not fit the
+                // next block at all - so only its upstream request is compared, not its outcome)
+                if (p)
+                    ++n_retry_ok;
+            }
             if (trace)
                 std::fprintf(stderr, "  alloc %s iface=%d count=%zu size=%zu align=%zu -> %p%s\n",
                              r.array ? "array" : "node", int(r.iface), r.count, r.size, r.align, p,
@@ -2575,6 +2619,7 @@ namespace
             ci.counters["structure_walks"] += n_walks;
             ci.counters["bad_calls_in_child"] += n_bad_calls;
             ci.counters["bad_calls_not_applicable"] += n_bad_na;
+            ci.counters["retries_after_injected_failure"] += n_retry_ok;
             ci.counters["min_block_size_checks"] += n_minblock;
             ci.counters["foreign_probes"] += n_probes;
             ci.counters["foreign_probes_adjacent_blocks"] += n_probes_adjacent;
